@@ -23,6 +23,32 @@ HERE = os.path.dirname(os.path.dirname(os.path.abspath(__file__)))
 PY = sys.executable or '/venv/bin/python'
 
 
+def tree_digest(repo):
+    """Digest of the analysed sources (package *.py, SUPPORTED_FORMULAS.md)."""
+    import hashlib
+    h = hashlib.sha256()
+    files = []
+    for root, dirs, fs in os.walk(os.path.join(repo, 'hotxlfp')):
+        dirs[:] = sorted(d for d in dirs if d != '__pycache__')
+        for f in sorted(fs):
+            if f.endswith('.py') and not f.endswith('parsetab.py'):
+                files.append(os.path.join(root, f))
+    files.append(os.path.join(repo, 'SUPPORTED_FORMULAS.md'))
+    for f in files:
+        if os.path.exists(f):
+            h.update(os.path.relpath(f, repo).encode())
+            h.update(open(f, 'rb').read())
+    return h.hexdigest()
+
+
+def pinned_digest():
+    p = os.path.join(HERE, 'seeded', 'BASE.json')
+    try:
+        return json.load(open(p)).get('digest')
+    except Exception:
+        return None
+
+
 def catalogue():
     out = []
     exp_path = os.path.join(HERE, 'seeded', 'EXPECTED.json')
@@ -106,6 +132,11 @@ def run_stats(props, repo, jobs=16, quiet=False):
         print('self-validation: %d/%d breaking variants reported (%d known misses), %d/%d benign runs silent, %d skipped'
               % (stats['breaking_reported'], stats['breaking_run'], stats['breaking_known_miss'], stats['benign_silent'],
                  stats['benign_run'], stats['skipped_patch_does_not_apply']))
+    # the catalogue was confirmed against one tree (seeded/BASE.json); on any other tree a variant may legitimately behave
+    # differently (its patch lands on changed code), so the outcome is reported but does not fail the check
+    pinned = pinned_digest()
+    on_base = pinned is None or tree_digest(repo) == pinned
+    stats['tree_is_confirmation_base'] = on_base
     for f in stats['failures']:
-        print('ANALYSIS-ERROR self-validation: %s' % f)
-    return (2 if stats['failures'] else 0), stats
+        print('%s self-validation: %s' % ('ANALYSIS-ERROR' if on_base else 'note (tree differs from the confirmation base):', f))
+    return (2 if (stats['failures'] and on_base) else 0), stats
